@@ -43,7 +43,7 @@ def slice_keep(tier: str):
         fam, m = j["family"].split("/")[0].split("~")[0], j["meta"]
         if "~" in j["family"]:
             return True  # variants are only built from programs of the slice
-        if j["family"].split("~")[0] in ("C10/scope", "C10/nonbinding", "C11/eqagg"):
+        if j["family"].split("~")[0] in ("C10/scope", "C10/nonbinding", "C11/eqagg", "C12/signed"):
             return True  # small sub-families
         if fam == "C05":
             return m["kind"] in ("arith", "eq", "pool", "chain", "pair", "count")
@@ -71,7 +71,7 @@ def slice_keep(tier: str):
         if fam == "C14":
             # every third program (by job id) of the two-literal rX/pq programs: math is the slowest pass
             # (negated aggregates always, also in the weak-constraint context)
-            neg = any(l.startswith("not ") and "#" in l for l in m["lits"])
+            neg = any(l.startswith("not ") and "#" in l and l.count("<") >= 2 for l in m["lits"])  # two-sided
             return (m["binders"] == "pq" and len(m["lits"]) == 2
                     and ((m["ctx"] == "rX" and (neg or int(j["id"][:6], 16) % 3 == 0)) or (m["ctx"] == "w" and neg)))
         if fam == "C16":
@@ -113,7 +113,7 @@ def jobs(tier: str):
         return cfgs
 
     fams = ["C05", "C08", "C09", "C10", "C11", "C12", "C13", "C14", "C15", "C16"]
-    yield from compose.remap(compose.family_jobs(fams, tier, variants=20), "C01", mk, keep=slice_keep(tier))
+    yield from compose.remap(compose.family_jobs(fams, tier, variants=12), "C01", mk, keep=slice_keep(tier))
     # (c) frozen inputs of the repository's tests: universe derived mechanically
     yield from corpus_tests_jobs(tier)
 
